@@ -1,6 +1,14 @@
 from vdriver import Group
+import importlib.util, os
 META = {'level': 'other'}
+def _c16():
+    spec = importlib.util.spec_from_file_location('chk_C16_for_C35', os.path.join(os.path.dirname(os.path.abspath(__file__)), 'C16.py'))
+    m = importlib.util.module_from_spec(spec)
+    spec.loader.exec_module(m)
+    return m
 def groups(tier):
+    return _groups(tier) + [g for g in _c16().groups(tier)]     # memory safety / totality of the wire decoder every remote byte goes through (C16's obligations)
+def _groups(tier):
     K = dict(unit='node_exc', harness='C35/exc.c', unwind=3, kind='skeleton', checks=[], skeleton=True, replay='chunk', timeout=900,
              backend=['sat', 'cadical'], bound='control-flow skeleton (E3), loops unrolled twice; throwing calls: Shamir::combine/split, decode_manifest, std::stoul')
     return [Group('transport_message.no_escape', entry='h_message',
@@ -14,6 +22,8 @@ def groups(tier):
 
 
 def replay(group, trace):
+    if group.name.startswith('decode'):
+        return _c16().replay(group, trace)
     """the REAL Node: established session, cached manifest with a repeated shard index, signed CHUNK message"""
     import sys, os
     root = os.path.dirname(os.path.dirname(os.path.abspath(__file__)))
